@@ -268,6 +268,17 @@ def foreign_events(ctx):
     corpus.append(('public key version 5 (unknown)', 6, b'\x05' + bytes(20)))
     corpus.append(('signature version 5 (unknown)', 2, b'\x05' + bytes(12)))
     corpus.append(('one-pass version 4 (unknown)', 4, b'\x04' + bytes(12)))
+    # session-key packets of every public-key algorithm id a reader may meet (RFC 4880 9.1), incl. the deprecated RSA-encrypt-only (2) and
+    # ElGamal ids (16, 20): ids x integer counts per 5.1; SKESK of every S2K specifier; one-pass packets with every flag value
+    for alg_, nmpi in ((1, 1), (2, 1), (16, 2), (20, 2)):
+        mp = b''.join(build.mpi(int.from_bytes(bytes((i * 37 + alg_ + j) % 251 + 1 for i in range(64 + j)), 'big')) for j in range(nmpi))
+        corpus.append(('foreign pkesk algorithm %d' % alg_, 1, b'\x03' + bytes(range(1, 9)) + bytes([alg_]) + mp))
+    corpus.append(('foreign pkesk wildcard recipient', 1, b'\x03' + bytes(8) + b'\x01' + build.mpi(0x1234567890abcdef1234567890abcdef)))
+    for spec_, s2k_ in ((0, bytes([0, 8])), (1, bytes([1, 2]) + bytes(range(8))), (3, bytes([3, 10]) + bytes(range(8)) + b'\x60')):
+        corpus.append(('foreign skesk s2k %d' % spec_, 3, b'\x04\x09' + s2k_))
+        corpus.append(('foreign skesk s2k %d with an encrypted session key' % spec_, 3, b'\x04\x07' + s2k_ + bytes(range(17))))
+    for last_ in (0, 1, 2, 255):
+        corpus.append(('foreign one-pass flag %d' % last_, 4, b'\x03\x01\x0a\x16' + bytes(range(8)) + bytes([last_])))
     import zlib
     inner = build.pkt(11, b'b\x00\x00\x00\x00\x00in') + build.pkt(11, b'b\x00\x00\x00\x00\x00two')
     corpus.append(('compressed packet with two literals', 8, b'\x02' + zlib.compress(inner)))
